@@ -436,6 +436,7 @@ pub fn family(name: &str, _tier: Tier) -> Vec<Prog> {
         "shapes/binds" => bind_shapes(),
         "shapes/fanout" => fanout_shapes(),
         "shapes/diamond" => diamond_shapes(),
+        "shapes/pending" => pending_shapes(),
         // node creation interleaved with everything else (C01 "create node"): the derived nodes do not exist when the
         // history starts and appear one by one through `CreateNext` -- either all of them, or only the last one (a new
         // dependant of nodes that have long been computed); sinks observable, one observer at a time
@@ -462,6 +463,7 @@ pub fn family(name: &str, _tier: Tier) -> Vec<Prog> {
             .collect(),
         "shapes/xp" => xp_shapes(false),
         "shapes/xp-writes" => xp_shapes(true),
+        "shapes/fn-writes" => fn_write_shapes(),
         "c03/nested" => nested_shapes(),
         "c03/inner" => bind_programs().into_iter().flat_map(pin_binds).collect(),
         "c03/stale_rhs" => stale_rhs_programs(),
@@ -654,6 +656,8 @@ pub fn family(name: &str, _tier: Tier) -> Vec<Prog> {
             .chain(cutoff_programs(false).into_iter().filter(|p| p.nodes.iter().filter(|n| n.cut.is_logged()).count() >= 2).step_by(7))
             // expert nodes: recompute function, edge callback and observability callback are crash points too
             .chain(xp_shapes(false))
+            // a node function writes a variable before the crash point
+            .chain(fn_write_shapes())
             .map(|p| {
                 with_alpha(p, |a| {
                     a.subscribe = true;
@@ -1028,6 +1032,72 @@ pub fn xp_shapes(writes: bool) -> Vec<Prog> {
             if writes {
                 p.alpha.obs_cb_sets_var = Some(target);
             }
+            p
+        })
+        .collect()
+}
+
+/// A bind main that is *already queued* (its short right-hand side is a variable written in the same round) when its
+/// left-hand side switches it to a much taller right-hand side, while a two-input node in the middle of that tall
+/// right-hand side is itself pending: the main node is lifted inside the recompute heap past a queued node. The order of
+/// the three writes decides which node the heap's lower bound points at (after seed C02-f).
+///   0:w 1:z 2:s 3:a 4:inc(w) 5:inc(4) 6:mix(5,z) 7:inc(6) 8:tall=inc(7) 9:b1=bind(a, s | tall) 10:p=inc(b1)
+///   [+ 11:g 12:inc(g) 13:par(g) 14:b2=bind(p, 12 | 13)]
+pub fn pending_shapes() -> Vec<Prog> {
+    use Rhs::*;
+    let mut out = vec![];
+    for (flip, second_bind, short_tall) in [(false, false, 2u8), (false, true, 2), (true, false, 2), (false, false, 1), (true, true, 2)] {
+        let mut nodes = vec![var(0), var(0), var(0), var(0), map(F1::Inc, 0), map(F1::Inc, 4), map2(F2::Mix, 5, 1)];
+        let mut top = 6u8;
+        for _ in 0..short_tall {
+            nodes.push(map(F1::Inc, top));
+            top += 1;
+        }
+        let b1 = top + 1;
+        nodes.push(if flip { bind(3, E(top), E(2)) } else { bind(3, E(2), E(top)) });
+        nodes.push(map(F1::Inc, b1));
+        let p_ix = b1 + 1;
+        let mut observable = vec![top, p_ix];
+        if second_bind {
+            nodes.push(var(0));
+            nodes.push(map(F1::Inc, p_ix + 1));
+            nodes.push(map(F1::Par, p_ix + 1));
+            nodes.push(bind(p_ix, E(p_ix + 2), E(p_ix + 3)));
+            observable = vec![top, p_ix + 4];
+        }
+        let mut p = Prog::new(nodes);
+        p.start_observed = observable.clone();
+        p.alpha.observable = observable;
+        p.alpha.max_observers = 2;
+        p.alpha.values = vec![0, 1];
+        p.alpha.disallow = false;
+        out.push(p);
+    }
+    out
+}
+
+/// A node function that owns a `Var` handle and writes it (`Alphabet::fn_sets_var`): the write is parked until the end of
+/// the stabilise, the dependants of the written variable move at the next one. With a crash point later in the same
+/// stabilise the write stays pending for ever and the variable is torn down with it (after seed C13-f).
+pub fn fn_write_shapes() -> Vec<Prog> {
+    use Rhs::*;
+    let shapes: Vec<(Vec<NodeSpec>, Vec<u8>, (u8, u8))> = vec![
+        // writer low in a chain, a consumer above it, a reader of the written variable
+        (vec![var(0), var(1), map(F1::Inc, 0), map(F1::Inc, 2), map(F1::Inc, 1)], vec![3, 4], (2, 1)),
+        // the writer becomes needed in mid-stabilise through a bind, next to a reader of the written variable
+        (vec![var(0), var(1), map(F1::Inc, 0), map(F1::Inc, 1), bind(0, E(2), E(3))], vec![4, 3], (2, 1)),
+        // the writer reads (through a map2 above it) the variable it writes
+        (vec![var(0), var(1), map(F1::Inc, 0), map2(F2::Mix, 2, 1)], vec![3], (2, 1)),
+    ];
+    shapes
+        .into_iter()
+        .map(|(nodes, observable, w)| {
+            let mut p = Prog::new(nodes);
+            p.alpha.observable = observable;
+            p.alpha.max_observers = 2;
+            p.alpha.values = vec![0, 1];
+            p.alpha.disallow = false;
+            p.alpha.fn_sets_var = Some(w);
             p
         })
         .collect()
